@@ -63,6 +63,12 @@ type Closure struct {
 
 type Opaque struct{ Why string }
 
+// HostFn is a function value implemented by the engine (e.g. the element swapper handed to the real sort code).
+type HostFn struct {
+	Name string
+	F    func(ip *Interp, args []Value) Value
+}
+
 type mapEntry struct {
 	key Value
 	val Value
